@@ -253,6 +253,10 @@ enum Site {
     ArrowBefore,
     ArrowAfter,
     LamArgComma,
+    /// between an optional parameter's name and its `?`, and between `...` and a rest parameter's name
+    LamOptGap,
+    LamRestGap,
+    LamParenInner,
     IfAfter,
     CondGap,
     AccessOpen,
@@ -286,6 +290,9 @@ fn options(s: Site) -> &'static [&'static str] {
         Site::ArrowBefore => &[" ", "", "  "],
         Site::ArrowAfter => &[" ", "", "\n", "\n  ", " //c\n", "  "],
         Site::LamArgComma => &[" ", "", "\n", "  "],
+        Site::LamOptGap => &["", " ", "\t", "  ", " \t "],
+        Site::LamRestGap => &["", " ", "\t", "  "],
+        Site::LamParenInner => &["", " ", "\t", "\n"],
         Site::IfAfter => &[" ", "  ", "\t"],
         Site::CondGap => &[" ", "\n", "\n  ", " //c\n", "  "],
         Site::AccessOpen | Site::AccessClose => &["", "\n", "//c\n", "\n\n"],
@@ -416,16 +423,30 @@ impl<'a> Layout<'a> {
             }
             T::Lam(args, body) => {
                 self.out.push('(');
+                if !args.is_empty() {
+                    self.gap(Site::LamParenInner);
+                }
                 for (i, a) in args.iter().enumerate() {
                     if i > 0 {
                         self.out.push(',');
                         self.gap(Site::LamArgComma);
                     }
-                    self.out.push_str(&match a {
-                        LArg::Req(n) => n.clone(),
-                        LArg::Opt(n) => format!("{}?", n),
-                        LArg::Rest(n) => format!("...{}", n),
-                    });
+                    match a {
+                        LArg::Req(n) => self.out.push_str(n),
+                        LArg::Opt(n) => {
+                            self.out.push_str(n);
+                            self.gap(Site::LamOptGap);
+                            self.out.push('?');
+                        }
+                        LArg::Rest(n) => {
+                            self.out.push_str("...");
+                            self.gap(Site::LamRestGap);
+                            self.out.push_str(n);
+                        }
+                    }
+                }
+                if !args.is_empty() {
+                    self.gap(Site::LamParenInner);
                 }
                 self.out.push(')');
                 self.gap(Site::ArrowBefore);
